@@ -42,6 +42,7 @@ Rec == [d1 |-> d1, d2 |-> d2, arg |-> arg,
         project |-> Project(d1, arg), marginalize |-> Marginalize(d1, SeqRange(arg)),
         invert |-> Invert(d1, SeqRange(arg)), merge |-> Merge(d1, d2),
         canonical |-> Canonical(d1, SeqRange(arg)), canonical_any |-> Canonical(d1, SeqRange(d2)),
+        invert_any |-> Invert(d1, SeqRange(d2)), marginalize_any |-> Marginalize(d1, SeqRange(d2)),
         contains |-> DContains(d1, d2), axes |-> Axes(d1, arg),
         size |-> SizeSeq(d1), size_arg |-> SizeSeq(arg), sort_size |-> SortBySize(d1),
         eq |-> (d1 = d2)]
@@ -62,6 +63,12 @@ ComplementLaw == /\ SeqRange(Marginalize(d1, A)) = SeqRange(d1) \ A
 CanonicalLaw == /\ SeqRange(Canonical(d1, A)) = A
                 /\ Canonical(d1, A) = Without(d1, SeqRange(d1) \ A)        \* a subsequence of d1
                 /\ SizeSeq(Canonical(d1, A)) = SizeSeq(arg)               \* size is order-independent
+\* a list that also names attributes OUTSIDE the domain splits the domain all the same: what it names, and the rest
+ForeignLaw == LET B == SeqRange(d2) IN
+              /\ SeqRange(Invert(d1, B)) \cup SeqRange(Canonical(d1, B)) = SeqRange(d1)
+              /\ SeqRange(Invert(d1, B)) \cap SeqRange(Canonical(d1, B)) = {}
+              /\ SizeSeq(Invert(d1, B)) * SizeSeq(Canonical(d1, B)) = SizeSeq(d1)
+              /\ Marginalize(d1, B) = Invert(d1, B)
 EmptyLaw == SizeSeq(<<>>) = 1
 SortLaw == IsSortBySize(d1, SortBySize(d1))
 AxesLaw == \A i \in DOMAIN arg : d1[Axes(d1, arg)[i] + 1] = arg[i]
